@@ -338,6 +338,7 @@ pub fn perturb_op(op: &Op, r: &mut Rng) -> Op {
             perturb_cert(recipe, r);
         }
         Op::Csr { recipe, .. } | Op::IssueFromCsr { recipe, .. } | Op::IssueViaImport { recipe, .. } => perturb_cert(recipe, r),
+        Op::Simple { .. } => {}
         Op::Crl { recipe, .. } => {
             if !recipe.revoked.is_empty() && r.chance(3, 4) {
                 let k = r.usize(recipe.revoked.len());
@@ -509,6 +510,7 @@ pub fn shrink_op(op: &Op) -> Vec<Op> {
         Op::IssueViaImport { issuer, subject, recipe } => {
             recipe.shrink().into_iter().map(|r| Op::IssueViaImport { issuer: *issuer, subject: *subject, recipe: r }).collect()
         }
+        Op::Simple { .. } => vec![],
     }
 }
 
